@@ -587,7 +587,7 @@ temperature totals (units with an offset) are compared with the model only".into
     corpus_cases(ctx, &conv, &parser);
 
     // ---- groups: all permutations of small multisets
-    let n_small = if ctx.thorough { 6000 } else { 700 };
+    let n_small = if ctx.thorough { 18_000 } else { 700 };
     for _ in 0..n_small {
         let fam = family(&mut rng);
         let n = 1 + rng.below(5);
@@ -604,7 +604,7 @@ temperature totals (units with an offset) are compared with the model only".into
         }
     }
     // ---- larger multisets, random orders
-    for _ in 0..(if ctx.thorough { 60_000 } else { 4000 }) {
+    for _ in 0..(if ctx.thorough { 150_000 } else { 4000 }) {
         let fam = family(&mut rng);
         let n = 6 + rng.below(7);
         let mut qs: Vec<ScaledQuantity> = (0..n).map(|_| quantity(&mut rng, &fam)).collect();
@@ -620,7 +620,7 @@ temperature totals (units with an offset) are compared with the model only".into
         }
     }
     // ---- merge, fit
-    for _ in 0..(if ctx.thorough { 80_000 } else { 6000 }) {
+    for _ in 0..(if ctx.thorough { 250_000 } else { 6000 }) {
         let fam = family(&mut rng);
         let a: Vec<ScaledQuantity> = (0..rng.below(6)).map(|_| quantity(&mut rng, &fam)).collect();
         let b: Vec<ScaledQuantity> = (0..rng.below(6)).map(|_| quantity(&mut rng, &fam)).collect();
@@ -635,7 +635,7 @@ temperature totals (units with an offset) are compared with the model only".into
         } }
     }
     // ---- cookware amounts
-    for _ in 0..(if ctx.thorough { 40_000 } else { 3000 }) {
+    for _ in 0..(if ctx.thorough { 100_000 } else { 3000 }) {
         let vs: Vec<Value> = (0..rng.below(7)).map(|_| if rng.chance(1, 4) { Value::Text(rng.pick(&["big", "small", ""]).to_string()) } else { value(&mut rng) }).collect();
         gvalue_case(ctx, &vs);
     }
@@ -660,7 +660,7 @@ temperature totals (units with an offset) are compared with the model only".into
     }
     // ---- recipes, lists, aisles
     let mut parsed = 0u64;
-    for _ in 0..(if ctx.thorough { 60_000 } else { 6000 }) {
+    for _ in 0..(if ctx.thorough { 200_000 } else { 6000 }) {
         let k = 1 + rng.below(4);
         let mut texts = vec![]; let mut recipes = vec![]; let mut all_valid = true;
         for _ in 0..k {
@@ -675,7 +675,7 @@ temperature totals (units with an offset) are compared with the model only".into
     }
     ctx.count_n("recipe:lists", parsed);
     // ---- lists built directly
-    for _ in 0..(if ctx.thorough { 40_000 } else { 4000 }) {
+    for _ in 0..(if ctx.thorough { 120_000 } else { 4000 }) {
         let a = aisle_text(&mut rng);
         let fam = family(&mut rng);
         let entries: Vec<(String, Vec<ScaledQuantity>)> = (0..rng.below(6)).map(|_| {
